@@ -22,10 +22,19 @@ Definition res_val (r : result (list string)) : val := match r with Ok l => of_L
 Definition opt_list_eqb (m o : option (list string)) : bool :=
   match m, o with Some a, Some b => same_list a b | None, None => true | _, _ => false end.
 
+(* the value returned together with an error (correspondence only): the conversions of the elements before the first bad one *)
+Definition err_payload_ok (pre : list string) (obs : val) : bool :=
+  match obs with
+  | VE p => match as_LS p with Some o => same_list pre o | None => false end
+  | _ => true
+  end.
 Definition d_s2e (args : list val) (obs : val) : verdict :=
   match args with
   | [a] => match as_LS a, obs_strs obs with
-           | Some l, Some o => let m := sids_to_eids l in mkv (opt_list_eqb (res_opt m) o) (check_s2e l o) "-" (res_val m)
+           | Some l, Some o =>
+               let m := sids_to_eids l in
+               mkv (opt_list_eqb (res_opt m) o && err_payload_ok (map_opt_prefix sid_to_eid_str l) obs) (check_s2e l o) "-"
+                   (match m with Ok r => of_LS r | Err => VE (of_LS (map_opt_prefix sid_to_eid_str l)) end)
            | _, _ => bad_case
            end
   | _ => bad_case
@@ -33,7 +42,10 @@ Definition d_s2e (args : list val) (obs : val) : verdict :=
 Definition d_e2s (args : list val) (obs : val) : verdict :=
   match args with
   | [a] => match as_LS a, obs_strs obs with
-           | Some l, Some o => let m := eids_to_sids l in mkv (opt_list_eqb (res_opt m) o) (check_e2s l o) "-" (res_val m)
+           | Some l, Some o =>
+               let m := eids_to_sids l in
+               mkv (opt_list_eqb (res_opt m) o && err_payload_ok (map_opt_prefix eid_to_sid_str l) obs) (check_e2s l o) "-"
+                   (match m with Ok r => of_LS r | Err => VE (of_LS (map_opt_prefix eid_to_sid_str l)) end)
            | _, _ => bad_case
            end
   | _ => bad_case
@@ -78,51 +90,59 @@ Definition d_parseprint (args : list val) (obs : val) : verdict :=
           let m := parseprint_model s in
           let c := match res_opt m, o with
                    | Some (id, acc, fp), Some (id', acc', fp') => String.eqb id id' && list_eqb Z.eqb acc acc' && list_eqb Z.eqb fp fp'
-                   | None, None => true
+                   | None, None => match obs with VE (VS id0) => String.eqb id0 (print_eid zero_eid) | _ => false end
                    | _, _ => false
                    end in
-          mkv c (check_parseprint s o) "-" (match m with Ok (id, acc, fp) => VL [VS id; of_LZ acc; of_LZ fp] | Err => VE VNil end)
+          mkv c (check_parseprint s o) "-"
+              (match m with Ok (id, acc, fp) => VL [VS id; of_LZ acc; of_LZ fp] | Err => VE (VS (print_eid zero_eid)) end)
       | None => bad_case
       end
   | _ => bad_case
   end.
 
-(* the harness does not call the expansion when it would be huge or the zooms are off the grid (shrinking may propose such inputs):
-   it answers VB false; the same predicate is evaluated here *)
+(* Size / domain guard of the expansion entry. The invoker does not call the library (it answers VB false) when the parsed ID is not a
+   valid ID of the grid (off-grid indices make the Go loops wrap around int64 or never end) or when the result would exceed the caps:
+   hZoom < vZoom: 4^d results, d <= 6; hZoom > vZoom: 2^d results, d <= 12. The entry recomputes the predicate from the arguments:
+   guard answer + predicate true = class "skipped" (neither an evaluation nor a pass); any other combination = bad_case. *)
 Definition expand_guard (s : string) : bool :=
   match parse_eid s with
-  | Some i => negb (check_zoom (eh i) && check_zoom (ev i) && (Z.abs (eh i - ev i) <=? 5)%Z)
+  | Some i => negb (validb i && (ev i - eh i <=? 6)%Z && (eh i - ev i <=? 12)%Z)
   | None => false
   end.
+Definition skipped_case : verdict := mkv true true "skipped" VNil.
 (* equality of the model's and the observed strings as sets (plus equal length). Ordered equality is tried first; otherwise the observed
-   strings must be the canonical spatial IDs of records that are mutually included with the model's records — this is string-set equality
-   because the model's strings are the canonical IDs of its records, and avoids sorting 1024 strings *)
-Definition inclb (a b : list eid) : bool := forallb (fun x => memb eid_eqb x b) a.
+   strings must be the canonical spatial IDs of their records and the sorted integer keys (Notation.eid_key, injective on valid voxels) of
+   the observed and of the model's records must coincide — string-set equality without sorting strings, in O(n log n) *)
 Definition expand_corr (s : string) (r r' : list string) : bool :=
   if same_list r r' then true
   else Nat.eqb (length r) (length r') &&
        match parse_eid s, map_opt parse_sid r' with
-       | Some i, Some js' => forall2b (fun t j => String.eqb t (print_sid j)) r' js' && inclb js' (expand_rec i) && inclb (expand_rec i) js'
+       | Some i, Some js' =>
+           forall2b (fun t j => String.eqb t (print_sid j)) r' js' &&
+           forallb (fun j => (eh j =? tzoom i)%Z && (ev j =? tzoom i)%Z && (0 <=? ey j)%Z && (ey j <? 2 ^ 36)%Z && (- 2 ^ 36 <=? ef j)%Z && (ef j <? 2 ^ 36)%Z) js' &&
+           list_eqb Z.eqb (ZSort.sort (map eid_key js')) (ZSort.sort (map eid_key (expand_rec i)))
        | _, _ => false
        end.
 Definition d_expand (args : list val) (obs : val) : verdict :=
   match args with
   | [VS s] =>
-      match obs with
-      | VB false => mkv (expand_guard s) true "-" (VB false)
-      | _ =>
-        match obs_strs obs with
-        | Some o =>
-            let m := expand_api s in
-            let c := match res_opt m, o with
-                     | Some r, Some r' => expand_corr s r r'
-                     | None, None => true
-                     | _, _ => false
-                     end in
-            mkv (c && negb (expand_guard s)) (check_expand s o) "-" (res_val m)
-        | None => bad_case
+      if expand_guard s then match obs with VB false => skipped_case | _ => bad_case end
+      else
+        match obs with
+        | VB _ => bad_case
+        | _ =>
+          match obs_strs obs with
+          | Some o =>
+              let m := expand_api s in
+              let c := match res_opt m, o with
+                       | Some r, Some r' => expand_corr s r r'
+                       | None, None => true
+                       | _, _ => false
+                       end in
+              mkv c (check_expand_fast s o) "-" (res_val m)
+          | None => bad_case
+          end
         end
-      end
   | _ => bad_case
   end.
 
@@ -224,6 +244,7 @@ Definition d_callseq (oracle : oracle_t) (args : list val) (obs : val) : verdict
       match zip_verdicts oracle calls outs with
       | Some vs =>
           if existsb (fun v => String.eqb (v_class v) "bad-case") vs then bad_case
+          else if existsb (fun v => String.eqb (v_class v) "skipped") vs then skipped_case   (* a refused call inside: the sequence is not scored *)
           else mkv (forallb v_corr vs) (forallb v_prop vs) "-" (VL (map v_model vs))
       | None => bad_case
       end
